@@ -36,6 +36,7 @@ ASSUMPTIONS = [
     "a hostname is any ASCII string (0x21..0x7e) of 1..255 bytes that Python's ipaddress module does not accept as an IP literal; it must be sent byte-identical as ATYP 3",
     "IP literals: strict dotted quads and RFC 4291 text forms (rendered by the reference from the packed bytes)",
     "an IPv6 literal with an RFC 4007 zone id ('fe80::1%eth0') has no ATYP 4 encoding: it must be refused with an error, or carried verbatim as a DOMAINNAME; a request for the address without its zone is a different target",
+    "host names are compared byte for byte, also .onion names (no case folding / normalisation is allowed to change what is sent); a non-ASCII name stays un-encodable even if lower()/upper()/casefold()/NFKC would map it to ASCII (U+212A, U+017F, fullwidth letters ...)",
     "delivery is never re-entrant: feed_data/dataReceived is not called from inside transport.write or a send_data drain callback (Twisted transports never do; the quantifier of C06 is over inputs only)",
     "CONNECT and RESOLVE_PTR of an IP literal must use ATYP 1 / 4 with the packed address; RESOLVE of an IP literal may also carry the literal text as ATYP 3 (Tor accepts both)",
     "the port of RESOLVE / RESOLVE_PTR is not an input of the public API: the PORT field may be 0 or the port handed to _SocksMachine",
@@ -59,13 +60,14 @@ ANCHORS = [
 FLOORS = {
     "quick": {"evaluations": 4500, "greetings_decoded": 4500, "requests_decoded": 2900, "unencodable_judged": 400,
               "ports_distinct_shard_sum": 900, "checked_after_half_method_reply": 1000, "zoned_literals_judged": 250,
+              "onion_names_judged": 80, "foldable_nonascii_judged": 200,
               "reach:txtorcon.socks:_SocksMachine._send_connect_request": 2000,
               "reach:txtorcon.socks:_SocksMachine._send_resolve_request": 1500,
               "reach:txtorcon.socks:_SocksMachine._send_resolve_ptr_request": 700,
               "reach:txtorcon.socks:TorSocksEndpoint.connect": 700},
     "thorough": {"evaluations": 90000, "greetings_decoded": 90000, "requests_decoded": 60000,
                  "unencodable_judged": 4000, "ports_distinct_shard_sum": 65536, "checked_after_half_method_reply": 14000,
-                 "zoned_literals_judged": 900,
+                 "zoned_literals_judged": 900, "onion_names_judged": 150, "foldable_nonascii_judged": 1700,
                  "reach:txtorcon.socks:_SocksMachine._send_connect_request": 39000,
                  "reach:txtorcon.socks:_SocksMachine._send_resolve_request": 30000,
                  "reach:txtorcon.socks:_SocksMachine._send_resolve_ptr_request": 17000,
@@ -81,6 +83,48 @@ NONASCII_SAMPLES = [
     "１.２.３.４", "a" * 200 + "é", "é" * 127, "é" * 128, "é" * 255,
     "€" * 85, "€" * 86, "a" * 254 + "é", "İstanbul", "straße.de", "exаmple.com",
 ]
+# non-ASCII characters whose lower() / upper() / casefold() / NFKC image is (or contains only) ASCII: a client that
+# normalises before encoding would turn such a name into a *different*, encodable one
+FOLDABLE_CHARS = ["\u212a", "\u017f", "\u0130", "\u0131", "\uff4b", "\uff2f", "\uff0e", "\ufb01", "\u00df", "\u2170", "\u00aa",
+                  "\u2024", "\u1e9e", "\U0001d5ba", "\u2102", "\u24de"]
+ONION_SUFFIXES = [".onion", ".ONION", ".Onion", ".oNiOn", ".onioN"]
+B32 = "abcdefghijklmnopqrstuvwxyz234567"
+
+
+def onion_body(rnd, case):
+    n = rnd.choice([16, 56, 56, rnd.randint(1, 60)])
+    body = "".join(rnd.choice(B32) for _ in range(n))
+    if case == "upper":
+        body = body.upper()
+    elif case == "mixed":
+        body = "".join(c.upper() if rnd.random() < 0.5 else c for c in body) + "Q"
+    if rnd.random() < 0.3:
+        body = rnd.choice(["www", "WWW", "Sub.Dom", "a"]) + "." + body
+    return body
+
+
+def onion_and_foldable_names(rnd, n):
+    """-> [(kind, host)]: ASCII .onion names in every letter case (encodable: must go out byte-identical) and
+    non-ASCII names that case mapping / NFKC would turn into ASCII (un-encodable: must be refused), with and without
+    an .onion suffix"""
+    out = []
+    for k in range(n):
+        for case in ("lower", "upper", "mixed"):
+            out.append(("onion", onion_body(rnd, case) + ONION_SUFFIXES[(k + len(out)) % len(ONION_SUFFIXES)]))
+    for ch in FOLDABLE_CHARS:
+        for suffix in ONION_SUFFIXES[:3] + [".example", ".COM", ""]:
+            body = onion_body(rnd, rnd.choice(["lower", "mixed"])) if "nion" in suffix.lower() else ldh_name(rnd, rnd.choice([3, 9, 30]))
+            pos = rnd.randrange(len(body) + 1)
+            out.append(("foldable", body[:pos] + ch + body[pos:] + suffix))
+        # the special character inside the suffix itself
+        out.append(("foldable", onion_body(rnd, "lower") + ".on" + ch + "on"))
+        out.append(("foldable", onion_body(rnd, "mixed") + "." + ch + "nion"))
+        out.append(("foldable", ch))
+    out.append(("foldable", "\u212a" * 16 + ".onion"))
+    out.append(("foldable", "expyuzz4wqqyqhjn\uff0eonion"))
+    return [(k, h) for (k, h) in out if not h.isascii() or k == "onion"]
+
+
 BOUNDARY_PORTS = sorted(set(
     [0, 1, 2, 21, 22, 79, 80, 127, 128, 254, 255, 256, 257, 443, 511, 512, 1023, 1024, 1025, 4660, 8080, 8443, 9050,
      9150, 13398, 32767, 32768, 32769, 43981, 48879, 65279, 65280, 65281, 65533, 65534, 65535]
@@ -171,7 +215,8 @@ def v6_patterns(rnd):
 def kind_class(kind):
     return {"ldh": "ldh-name", "label": "ldh-name", "printable": "printable-name", "ipv4": "ipv4-literal",
             "ipv6": "ipv6-literal", "ipv6zone": "ipv6-zoned-literal", "overlong": "overlong-name",
-            "nonascii": "non-ascii-name"}[kind]
+            "nonascii": "non-ascii-name", "foldable": "non-ascii-name-with-ascii-case-or-nfkc-image",
+            "onion": "onion-name"}[kind]
 
 
 def input_class(case):
@@ -383,7 +428,11 @@ def judge(case, obs, rec):
             rec.violation(clause, cls or icls, detail, case)
 
     req, kind = case["req"], case["kind"]
-    unencodable = kind in ("overlong", "nonascii")
+    unencodable = kind in ("overlong", "nonascii", "foldable")
+    if kind == "foldable":
+        rec.count("foldable_nonascii_judged")
+    elif kind == "onion":
+        rec.count("onion_names_judged")
     zoned = kind == "ipv6zone"
     out_of_model = (req == "RESOLVE_PTR" and kind not in ("ipv4", "ipv6", "ipv6zone"))
     failed = bool(obs.errors) or (obs.outcome is not None and obs.outcome.fired and not obs.outcome.ok)
@@ -691,6 +740,14 @@ def cases_hostile(spec):
                 i += 1
                 out.append(mk(req, "nonascii", host, 443 if req == "CONNECT" else 0, drive, msplit=(i % 3 == 0),
                               hostbytes=(drive not in ("machine", "machine-ondata", "factory") and i % 3 == 0)))
+    # .onion names in every case, and non-ASCII names with an ASCII case-mapping / NFKC image
+    for (kind, host) in onion_and_foldable_names(rnd, spec.get("n_onion", 12)):
+        for req in ("CONNECT", "RESOLVE"):
+            for drive in drives_for(req):
+                i += 1
+                out.append(mk(req, kind, host, _rot(BOUNDARY_PORTS, i) if req == "CONNECT" else 0, drive,
+                              msplit=(i % 3 == 0), final=_rot(["none", "success", "refused"], i),
+                              hostbytes=(drive not in ("machine", "machine-ondata", "factory") and i % 5 == 0)))
     # refused / wrong method replies for every request type and target kind
     for m in ("m1", "m2", "mff", "v4", "v0"):
         for msplit in (False, True):
@@ -713,7 +770,10 @@ def cases_random(spec):
     for i in range(spec["n"]):
         rnd = gen.rnd_for(spec["seed"], "C06", spec["shard"], i)
         r = rnd.random()
-        if r < 0.45:
+        if r < 0.05:
+            kind, host = rnd.choice(onion_and_foldable_names(rnd, 1))
+            packed = None
+        elif r < 0.45:
             n = rnd.randint(1, 255)
             kind = rnd.choice(["ldh", "label", "printable"])
             host = ldh_name(rnd, n, kind == "label") if kind != "printable" else printable_name(rnd, n)
